@@ -81,14 +81,14 @@ CHECKS = {
              "for n=2,3; the real compute_exploitability is evaluated on all unit vectors (n<=6/8), random integer/dyadic/negative/inverted vectors and integer combinations, "
              "and its float result, bound by a certified integer interval of n!*scale*value, must contain the specification's two closed forms; completions inside boxes are "
              "run through the real Shapley code and compared with the per-player maxima.",
-        note="basis enumeration instead of a computer-algebra proof; identity asserted only with empty coalition at 0 and grand coalition known"),
+        note="basis enumeration instead of a computer-algebra proof; identity asserted only with empty coalition at 0 and grand coalition known; real code to n=10 (sparse bound vectors at 9, 10), protocol objects other than IncompleteCooperativeGame (float / Fraction bounds), refused calls in between"),
     "C06": dict(
         level="model_checking", design="§5 C06", technique="TLC on MC_Shapley: weighted form vs the n! orderings on all unit games (n<=6), efficiency/symmetry/null-player to n=10; trace validation of both real entry points",
         text="TLC checks the code's weighted-sum form against the average marginal contribution over all n! orderings on every unit game for n=2..5 (quick) / 2..6 (thorough) "
              "and on all games with values in {0,1,2} for n=3, plus efficiency, symmetry under transpositions and the null-player law up to n=8 (10 thorough); "
              "compute_shapley_value and compute_shapley_value_for_player are run on all unit games (n<=7/10) and random integer, dyadic, negative, null-player, relabelled and "
              "combined games, and their results (certified integer intervals of n!*scale*value) must contain the specification's ordering average; both entry points must agree bit for bit.",
-        note="linearity argument instead of a symbolic proof; orderings enumerated up to n=6 on recorded results, weighted form beyond"),
+        note="linearity argument instead of a symbolic proof; orderings enumerated up to n=6 on recorded results, weighted form beyond (sparse games at n=11, 12); certified float intervals sized by the player's own marginals, games anchored at 2^44 judged on their small part"),
     "C10": dict(
         level="exploration", design="§5 C10", technique="registry swept by a driver; TLC evaluates the TLA+ contract table, class predicates and determinism clauses on every recorded call (Trace_Generators); determinism state machine model-checked",
         text="Every key of the generator registry except 'convex' is invoked for n=3..6 (quick, 24/16/6/3 seeds) / 3..8 (thorough, 160..20 seeds), twice per seed with identically seeded "
@@ -124,7 +124,7 @@ CHECKS = {
              "there, and the parent classifies the bytes of data.json: TLC demands previous-or-complete-new, parseable, earlier runs preserved for every injected fault. The observed program "
              "is also run on the TLA+ file-system model, where TLC places death / interruption / spontaneous buffer flushes after every prefix (including points with no Python-level hook); "
              "reference programs (in-place, temp-then-replace, replace-before-close, unlink-then-rename) self-test the model.",
-        note="process death only (no power loss / fsync semantics); leftover scratch files are allowed"),
+        note="process death only (no power loss / fsync semantics); leftover scratch files are allowed; faults are injected inside save_json, the save following an interrupted one also goes through the public save()"),
     "C11": dict(
         level="model_checking", design="§5 C11", technique="TLC on MC_Search (process-pool model: chunking, any worker schedule, chunk-local game copies) + trace validation of the real search for several worker counts, MetaGame and best-states (Trace_Search)",
         text="TLC checks on the pool model that the enumeration is exactly the set of reveal sets of size <= k without duplicates, that the chunks partition the task list, and that for every "
